@@ -118,8 +118,17 @@ def run_core(ctx, stream, ncase, maxlen, kinds=None, truncate=False, with_bloch=
 
 
 def run_C01(ctx, proof_ok):
+    import simc
+
     n = budget(ctx.tier, 300, 6000)
-    return run_core(ctx, 1, n, maxlen=budget(ctx.tier, 30, 60))
+    res = run_core(ctx, 1, n, maxlen=budget(ctx.tier, 30, 60))
+    # "every value returned by simulate() is the magnetisation at that instant": also for probes returning several values
+    n2, d2, dist2 = simc.search_snapshots(lib.rng(101), epg(), budget(ctx.tier, 80, 1500))
+    ctx.violations.extend(d2)
+    res["evaluations"] += n2
+    res["distribution"]["snapshot_cases"] = n2
+    res["rule"] += "; probes returning several quantities followed by in-place operators vs out-of-place manual stepping"
+    return res
 
 
 def run_wide_wf(ctx, stream, ncase, maxlen):
@@ -145,8 +154,17 @@ def run_wide_wf(ctx, stream, ncase, maxlen):
             case["options"]["max_nstate"] = int(r.integers(1, 4))
             case["options"].pop("prune", None)
             case["mode"] = "nd-capped"
+        elif u < 0.45:
+            # focus: stimulated-echo-like histories with diffusion right after the gradient (D with its `k` argument)
+            case = wide.gen_wide(r, int(r.integers(4, maxlen + 1)), mode=["1d", "nd"][i % 2], batch=batch,
+                                 allow=["T", "S", "D", "T", "S", "D", "E"])
+            case["options"].pop("max_nstate", None)
+            case["options"]["kvalue"] = 2e4
+            case["mode"] = "diffusion-focus"
         else:
             case = wide.gen_wide(r, int(r.integers(1, maxlen + 1)), batch=batch)
+        if case["mode"] in ("1d", "nd", "nd-capped") and any(o["op"] == "D" for o in case["program"]) and i % 2 == 0:
+            case["options"]["kvalue"] = 2e4      # integer wavenumbers in units large enough for diffusion to act
         if i < 2:
             samples.append(case)
         dist["mode:" + case["mode"]] += 1
@@ -273,15 +291,20 @@ def run_C10(ctx, proof_ok):
     r = lib.rng(10)
     n1, d1, dist = combc.compare_combine(r, E, budget(ctx.tier, 400, 8000))
     n2, d2 = combc.compare_nesting(r, E, budget(ctx.tier, 250, 5000))
-    ctx.violations.extend(d1 + d2)
+    import c09
+    n3, d3 = c09.nested_program_history(lib.rng(1011), E, budget(ctx.tier, 60, 1200))
+    ctx.violations.extend(d1 + d2 + d3)
     ctx.violations.extend(combc.probe_F7(E))
+    n2 = n2 + n3
     return {"evaluations": n1 + n2, "distinct_nontrivial": dist["with_decl"] + n2,
             "rule": "combine: random chains (2-4) of operators `@` accepts (E.., P.., R.., T.., Phi.., T mixed with E), parameters "
                     "scalar or arrays over batch shapes (), (2,), (3,), (2,1), (1,3), (2,3), identity-named declarations first "
                     "order / first+second order, left and right association, input state with or without foreign partials; "
                     "(a@b)(sm) vs b(a(sm)) on states, order1, order2, shape, duration || nesting: the same operator objects "
                     "flat, nested in lists and grouped with `*` (incl. right-nested groups): identical simulate() results and "
-                    "multi-operator duration / nshift / shape; non-trivial = chain with declarations / any nesting case",
+                    "multi-operator duration / nshift / shape; nested program lists edited in place (item replaced / appended / made "
+                    "batched) between uses: simulate, get_adc_times, getnshift, getshape vs the flat sequence; non-trivial = chain "
+                    "with declarations / any nesting case",
             "samples": [lib.jsonable(combc.describe(combc.gen_chain(lib.rng(1010))))],
             "distribution": {"combine": dist, "combine_checks": n1, "nesting_checks": n2}}
 
@@ -443,18 +466,21 @@ def run_C12(ctx, proof_ok):
     n1, d1, dist1 = simc.compare(cases, E)
     n2, d2, dist2 = simc.search_batched(r, E, budget(ctx.tier, 250, 5000))
     n3, d3, dist3 = simc.search_modify(r, E, budget(ctx.tier, 200, 4000))
-    ctx.violations.extend(d1 + d2 + d3)
-    return {"evaluations": n1 + n2 + n3, "distinct_nontrivial": sum(1 for c in cases if len(c["items"]) > 3) + n2 + n3,
+    n4, d4, dist4 = simc.search_snapshots(lib.rng(1212), E, budget(ctx.tier, 120, 2500))
+    ctx.violations.extend(d1 + d2 + d3 + d4)
+    return {"evaluations": n1 + n2 + n3 + n4, "distinct_nontrivial": sum(1 for c in cases if len(c["items"]) > 3) + n2 + n3 + n4,
             "rule": "timed random sequences over T/Phi/E/P/R/S/Wait/Offset/SPOILER with duration unset/number/True and 1..n Adc probes "
                     "(F0/Z0/F/Z, weights, reduce, phase), optional probe= override list (None / Adc with its own phase), optional "
                     "modify(T1,T2,g,att): simulate(adc_time=True) + get_adc_times vs the Lean Sim model run by the driver; batched "
                     "sequences (array durations, array weights and phases on leading axes, reduce int/True/False) vs manual stepping "
                     "of the real operators and the documented formula; modify() with scalar/array parameters, expand on/off, vs the "
-                    "hand-built sequence with explicit E/P evolutions and scaled flip angles",
+                    "hand-built sequence with explicit E/P evolutions and scaled flip angles; probes returning several quantities "
+                    "(tuple / list / callable / probe= forms) followed by in-place operators vs out-of-place manual stepping",
             "samples": [lib.jsonable(cases[-1])],
             "distribution": {"model_cases": n1, **{"model_" + k: int(v) for k, v in dist1.items()},
                              "batched_cases": n2, **{"batched_" + k: int(v) for k, v in dist2.items()},
-                             "modify_cases": n3, **{"modify_" + k: int(v) for k, v in dist3.items()}}}
+                             "modify_cases": n3, **{"modify_" + k: int(v) for k, v in dist3.items()},
+                             "snapshot_cases": n4, **{"snapshot_" + k: int(v) for k, v in dist4.items()}}}
 
 
 def run_C18(ctx, proof_ok):
@@ -492,7 +518,11 @@ def run_C20(ctx, proof_ok):
     E = epg()
     r = lib.rng(20)
     n, dis, hits = guardc.compare(r, E, budget(ctx.tier, 1600, 40000))
-    ctx.violations.extend(dis)
+    import c09
+    n2, d2 = c09.signal_function_reuse(lib.rng(2020), E, budget(ctx.tier, 40, 800))
+    ctx.violations.extend(dis + d2)
+    n += n2
+    hits["signal_function_reuse"] = n2
     return {"evaluations": n, "distinct_nontrivial": n,
             "rule": "inputs generated by class (16 classes: negative duration entries at a random position/magnitude/shape for 7 "
                     "operator kinds, negative G/C times, zero / numerically zero shifts, >4 components, float shift without grid "
@@ -502,7 +532,9 @@ def run_C20(ctx, proof_ok):
                     "declarations (6 invalid forms), sequences without probe / with non-operator items, sequence variables, pulse "
                     "samples above 1, boundary-valid inputs), each with valid neighbours, half of the application-time cases on an "
                     "operator object already applied once to a valid state: epgpy raise/accept vs the class expectation and vs the "
-                    "Lean guard model run by the driver on the same flattened input",
+                    "Lean guard model run by the driver on the same flattened input; the function returned by Sequence.signal() / "
+                    "jacobian() called repeatedly with complete and incomplete variable sets (incomplete must raise whatever "
+                    "was given before)",
             "samples": [], "distribution": {k: int(v) for k, v in sorted(hits.items())}}
 
 
@@ -584,7 +616,9 @@ def run_C06(ctx, proof_ok):
     n1, d1 = exc.compare(cases, E)
     n2, d2, dist2 = exc.search_physics(r, E, budget(ctx.tier, 120, 3000))
     n3, d3 = exc.search_limits(r, E, budget(ctx.tier, 50, 1000))
-    ctx.violations.extend(d1 + d2 + d3)
+    n4, d4 = exc.search_grid(lib.rng(606), E, budget(ctx.tier, 40, 800))
+    ctx.violations.extend(d1 + d2 + d3 + d4)
+    n3 = n3 + n4
     return {"evaluations": n1 + n2 + n3, "distinct_nontrivial": sum(1 for c in cases if len(c["ops"]) > 3) + n2 + n3,
             "rule": "2-4 compartments with random densities and detailed-balance kinetic matrices (or a scalar rate), sequences of "
                     "T / S / per-compartment E / X(tau, K, T1, T2, g incl. None): every compartment's states vs the Lean exchange "
@@ -592,9 +626,11 @@ def run_C06(ctx, proof_ok):
                     "vs exp(tau(-K+R))(M-Meq)+Meq by numpy scaling-and-squaring with the exchange axis at position 0 with a trailing "
                     "batch axis, at position 1 after a batch axis, infinite T1, with and without relaxation; semigroup tau1,tau2; "
                     "equilibrium fixed point; total magnetisation conserved without relaxation; limits: zero exchange = E per "
-                    "compartment, scalar rate = its kinetic matrix, batched tau = each tau alone",
+                    "compartment, scalar rate = its kinetic matrix, batched tau = each tau alone; grid: compartments on axis 0 with two "
+                    "further operator axes (flip angles, mixing times), T1 = T2 with chemical shift, chemical shift alone",
             "samples": [lib.jsonable(cases[-1])],
-            "distribution": {"model_cases": n1, "physics_cases": n2, **{k: int(v) for k, v in dist2.items()}, "limit_cases": n3}}
+            "distribution": {"model_cases": n1, "physics_cases": n2, **{k: int(v) for k, v in dist2.items()}, "limit_cases": n3 - n4,
+                             "grid_cases": n4}}
 
 
 def run_C09(ctx, proof_ok):
@@ -605,7 +641,13 @@ def run_C09(ctx, proof_ok):
     n1, d1, dist1 = heapc.compare(r, E, budget(ctx.tier, 150, 3000), budget(ctx.tier, 25, 60))
     seeds = [0, 1, 2, 3] if ctx.tier != "thorough" else list(range(0, 24)) + [12345, 4294967295]
     n2, d2 = heapc.hashseed_sweep(seeds)
-    ctx.violations.extend(d1 + d2)
+    import c09
+    import simc
+    n3, d3 = c09.sequence_object_history(lib.rng(909), E, budget(ctx.tier, 25, 500))
+    n4, d4 = c09.nested_program_history(lib.rng(910), E, budget(ctx.tier, 40, 800))
+    n5, d5, _ = simc.search_snapshots(lib.rng(911), E, budget(ctx.tier, 60, 1200))
+    ctx.violations.extend(d1 + d2 + d3 + d4 + d5)
+    n1 = n1 + n3 + n4 + n5
     return {"evaluations": n1 + n2, "distinct_nontrivial": n1,
             "rule": "random histories (length <= 25 quick / 60 thorough) of apply(op, handle, inplace) over 16 operator kinds (incl. "
                     "differential declarations with partial derivatives, 1-D / n-D / float shifts, PD, SPOILER, System, D, C, "
@@ -615,8 +657,11 @@ def run_C09(ctx, proof_ok):
                     "between the partials of one handle, bit-identical content of every handle whose cell the model leaves untouched, "
                     "operator objects unchanged and equal to fresh instances, simulate() repeatable and leaving init and its options "
                     "alone, snapshots frozen; plus the same script under several PYTHONHASHSEED values (digests of signals, "
-                    "Jacobians, Hessians, CRLB, n-D states)",
-            "samples": [], "distribution": {"histories": n1, **{k: int(v) for k, v in dist1.items()}, "hash_seeds": n2}}
+                    "Jacobians, Hessians, CRLB, n-D states); histories of simulate / signal / jacobian / hessian / crlb with per-call "
+                    "options on one Sequence object and its copy vs fresh Sequences (options dictionaries untouched); nested "
+                    "program lists edited in place between uses vs the flat sequence; probes returning several quantities are "
+                    "snapshots",
+            "samples": [], "distribution": {"sequence_object_histories": n3, "nested_program_histories": n4, "snapshot_cases": n5, "histories": n1 - n3 - n4 - n5, **{k: int(v) for k, v in dist1.items()}, "hash_seeds": n2}}
 
 
 def merge_results(a, b, rule):
@@ -632,9 +677,17 @@ def merge_results(a, b, rule):
 def run_C08(ctx, proof_ok):
     a = run_core(ctx, 8, budget(ctx.tier, 300, 5000), maxlen=budget(ctx.tier, 30, 60), truncate=True, with_bloch=False)
     b = run_wide_wf(ctx, 108, budget(ctx.tier, 400, 12000), maxlen=budget(ctx.tier, 14, 30))
+    import c08
+    n3, d3 = c08.equilibrium_under_declarations(lib.rng(808), epg(), budget(ctx.tier, 80, 1600))
+    ctx.violations.extend(d3)
+    b["evaluations"] += n3
+    b["distribution"]["declaration_cases"] = n3
     return merge_results(a, b, a["rule"] + " || wide search: well-formedness clauses of C08 evaluated on the live epgpy "
                          "StateMatrix after every operator of random programs over ALL operator kinds (1-D/n-D/float shifts, "
-                         "G, C, D, truncation, pruning, batch shapes)")
+                         "G, C, D (also with k= and wavenumber units large enough for diffusion to act), truncation, pruning, batch shapes)"
+                         " || declarations: sequences of T/E/P/Phi/S with first- and second-order declarations in every documented form "
+                         "(incl. second-order coefficient maps), in place and out of place: well-formedness of the state matrix and of "
+                         "every partial, equilibrium unchanged")
 
 
 def run_diff(ctx, stream, select, ncorr, nsearch, second=True, plain_ops=False):
@@ -702,6 +755,14 @@ def run_C02(ctx, proof_ok):
     probes = diffc.probe_F1(epg())
     ctx.violations.extend(probes)
     res["distribution"]["F1_probe_hits"] = len(probes)
+    import c02
+    n2, d2 = c02.vector_jacobian_fd(lib.rng(202), epg(), budget(ctx.tier, 40, 800))
+    ctx.violations.extend(d2)
+    res["evaluations"] += n2
+    res["distribution"]["vector_fd_cases"] = n2
+    res["rule"] += " || vectorised: E parameters as arrays on different grid axes (each with its own number of axes), declarations as " \
+                   "list / True / alias / coefficient map: Jacobian columns of F0 and Z0 vs central finite differences of the plain " \
+                   "vectorised simulation"
     return res
 
 
@@ -735,6 +796,18 @@ def run_C19(ctx, proof_ok):
     res["distribution"]["subset_runs"] = n
     res["rule"] += " || subset search: every consistent program is re-run with each single variable activated alone, with " \
                    "all declarations removed, and with variables renamed; signals compared bit-for-bit, columns to 1e-12"
+    import c19
+    n2, d2 = c19.combine_subset_independence(lib.rng(1901), E, budget(ctx.tier, 40, 800))
+    ctx.violations.extend(d2)
+    res["evaluations"] += n2
+    res["distribution"]["combine_subset_cases"] = n2
+    n3, d3 = c19.sequence_coefficient_sum(lib.rng(1902), E, budget(ctx.tier, 30, 600))
+    ctx.violations.extend(d3)
+    res["evaluations"] += n3
+    res["distribution"]["sequence_coefficient_cases"] = n3
+    res["rule"] += " || operands merged with `@` (left / right association, E/P/T): the column of one operand's parameter, alone vs " \
+                   "together with random other declarations on every operand, vs sequential application || a Sequence variable feeding " \
+                   "two parameters of one virtual operator: column = sum of c_p x (column of p alone on the concrete operators)"
     return res
 
 
@@ -837,9 +910,11 @@ def replay(ctx, spec, path):
             print("  ", b)
         return 1
     fn = spec.get("replay")
-    if fn is None:
-        print("no replay function for this property")
-        return 2
+    own = {"replay_core": {"model-vs-epgpy states", "model-vs-epgpy equilibrium", "bloch-ensemble-vs-epgpy", "epgpy-raised"},
+           "replay_diff": {"model-vs-epgpy partials", "jets-vs-epgpy", "subset-vs-full"},
+           "replay_seq": {"sequence-vs-jets", "sequence-raised", "expr-vs-model"}}
+    if fn is None or (fn.__name__ in own and data.get("kind") not in own[fn.__name__]):
+        fn = replay_generic      # kinds found by the other searches of this property: re-run them under the recorded seed
     return fn(ctx, data)
 
 
@@ -880,13 +955,15 @@ PROPS["C08"] = {
 
 DIFF_PARTIAL = ["proved: (i) every coefficient's symbolic derivative is its derivative, also as a total derivative along a curve in "
                 "parameter space, and stays defined (`defined_d`); (ii) regenerated tables = symbolic derivatives; (iii) the dictionary "
-                "bookkeeping accumulates the chain-rule terms exactly once; (iv) first order: what the bookkeeping stores is the "
-                "derivative of the new state when the carried partial is the derivative of the old one (T and E), lifted by induction "
-                "to whole programs of differentiable operator families (`C02Run.jacobian_exact`); (v) second order, RF pulse whose "
-                "flip angle and phase both depend on two variables a < b: the value `_apply_order2` stores under (a, b) is the "
-                "derivative with respect to b of the new first partial under a (`C03Run.T_mixed_partial_exact`). "
-                "Not stated as theorems: the second-order step for E / P / R and its induction over whole programs; those are exercised by "
-                "the jet-specification search"]
+                "bookkeeping accumulates the chain-rule terms exactly once (first order, mixed pairs and diagonal pairs, any operator "
+                "class and parameter lists: `pairVar_value`, `diagVar_value`); (iv) first order: what the bookkeeping stores is the "
+                "derivative of the new state (T, E, Phi, P families), lifted by induction to whole programs (`C02Run.jacobian_exact`); "
+                "(v) second order: for RF pulses and relaxation intervals whose parameters depend (non-linearly) on two variables, the "
+                "value stored under (a, b) is the derivative with respect to b of the new first partial under a "
+                "(`T_mixed_partial_exact_nl`, `E_mixed_partial_exact_nl`), lifted by induction to whole programs of pulses, "
+                "relaxation intervals and shifts (`C03Prog.hessian_exact`); diagonal pair for one RF step. "
+                "Not stated as theorems: second-order steps of P / R / Phi, the diagonal pair over whole programs; those are "
+                "exercised by the jet-specification search"]
 for _p, _run, _tie in (("C02", run_C02, TIE_OP + TIE_D1), ("C03", run_C03, TIE_OP + TIE_D1 + TIE_D2), ("C19", run_C19, TIE_OP)):
     PROPS[_p] = {
         "lean_modules": [f"EpgVerif.Props.{_p}"],
@@ -917,9 +994,8 @@ PROPS["C14"] = {
     "partial": ["proved: T/Phi/P/S isometries, E and Spoiler contractions, shifts along any number of axes are isometries, "
                 "symmetric norm = code norm for well-formed states, norm² = mean squared isochromat length (Parseval, composed with "
                 "C01's ensemble theorem), |F0| <= PD for every sequence of pulses / evolutions with T2 <= 2 T1 / shifts / spoilers "
-                "(1-D matrices, and n-D coordinate tables with diagonal contractions), scalar diffusion (D >= 0) is such a "
-                "contraction. Not proved: tensor diffusion contraction (needs D positive semi-definite; searched), merge/prune "
-                "back-ends (searched)"],
+                "(1-D matrices, and n-D coordinate tables with diagonal contractions), scalar (D >= 0) and tensor (D positive "
+                "semi-definite) diffusion are such contractions. Not proved: merge/prune back-ends (searched)"],
 }
 
 PROPS["C13"] = {
@@ -1098,20 +1174,20 @@ PROPS["C09"] = {
 # source-text and symbolic-execution tie modules (hand-written statements about regenerated Gen files, rebuilt every run)
 EXTRA_MODULES = {
     "C01": ["EpgVerif.Tie.ApplySites"],
-    "C02": ["EpgVerif.Tie.DiffSites", "EpgVerif.Props.C02Run"],
-    "C03": ["EpgVerif.Tie.DiffSites", "EpgVerif.Props.C03Run"],
+    "C02": ["EpgVerif.Tie.DiffSites", "EpgVerif.Props.C02Run", "EpgVerif.Props.C02Fam"],
+    "C03": ["EpgVerif.Tie.DiffSites", "EpgVerif.Props.C03Run", "EpgVerif.Props.C03Gen", "EpgVerif.Props.C03E", "EpgVerif.Props.C03Prog", "EpgVerif.Props.C03Diag"],
     "C04": ["EpgVerif.Tie.ShiftSites"],
     "C05": ["EpgVerif.Tie.PhysSites", "EpgVerif.Props.C05Path"],
     "C06": ["EpgVerif.Tie.PhysSites", "EpgVerif.Tie.Exchange"],
     "C07": ["EpgVerif.Tie.ApplySites"],
     "C08": ["EpgVerif.Tie.ApplySites"],
     "C09": ["EpgVerif.Tie.PuritySites"],
-    "C10": ["EpgVerif.Tie.ApplySites"],
+    "C10": ["EpgVerif.Tie.ApplySites", "EpgVerif.Props.C10Second"],
     "C11": ["EpgVerif.Tie.SeqSites", "EpgVerif.Props.C11Run"],
     "C12": ["EpgVerif.Tie.SimSites", "EpgVerif.Tie.Modify"],
     "C13": ["EpgVerif.Tie.ShiftSites", "EpgVerif.Props.C13Prune"],
-    "C14": ["EpgVerif.Tie.ShiftSites", "EpgVerif.Props.C14Bound", "EpgVerif.Props.C14Parseval"],
-    "C15": ["EpgVerif.Tie.PhysSites"],
+    "C14": ["EpgVerif.Tie.ShiftSites", "EpgVerif.Props.C14Bound", "EpgVerif.Props.C14Parseval", "EpgVerif.Props.C14Tensor"],
+    "C15": ["EpgVerif.Tie.PhysSites", "EpgVerif.Props.C15Box3"],
     "C16": ["EpgVerif.Tie.CollSites"],
     "C18": ["EpgVerif.Tie.PhysSites", "EpgVerif.Tie.RFPulse"],
     "C19": ["EpgVerif.Tie.DiffSites"],
